@@ -7,7 +7,7 @@
      (nextdue start iv due t)                -> deadline
    events: (0 i t iv) create  (1 i t due v) tick  (2 i t o) end, o = 0 true 1 false 2 raised
            (3 j t r) cancel  (4 k v) redef  (5) idle
-   actions: 0 none, 1 cancel arg, 2 redefine arg, 3 raise, 4 create the next timer of the pool, 5 unbind callback name arg; ret = code of the returned value (retv_of);  external kinds: 0 cancel idx, 1 redefine idx, 2 unbind idx *)
+   actions: 0 none, 1 cancel arg, 2 redefine arg, 3 raise (arg 0 an Exception, 1 asyncio.CancelledError, 2.. SystemExit / KeyboardInterrupt), 4 create the next timer of the pool, 5 unbind callback name arg; ret = code of the returned value (retv_of);  external kinds: 0 cancel idx, 1 redefine idx, 2 unbind idx *)
 From Coq Require Import ZArith List String.
 From KB Require Import Sx.
 From C15 Require Import Generated Model Spec.
@@ -29,7 +29,7 @@ Definition step_of_sx (x : sx) : option step :=
   match x with
   | SL [SZ d; SZ r; SZ a; SZ g] =>
       Some (mk_step d (retv_of r)
-              (if Z.eqb a 1 then ACancel (zn g) else if Z.eqb a 2 then ARedef (zn g) else if Z.eqb a 3 then ARaise
+              (if Z.eqb a 1 then ACancel (zn g) else if Z.eqb a 2 then ARedef (zn g) else if Z.eqb a 3 then ARaise (if Z.eqb g 0 then RExc else if Z.eqb g 1 then RCancelled else RFatal)
                else if Z.eqb a 4 then ASpawn else if Z.eqb a 5 then AUndef (zn g) else ANone))
   | _ => None
   end.
@@ -87,11 +87,11 @@ Definition zkind_of (z : Z) : zkind :=
 
 Definition dispatch (x : sx) : sx :=
   match x with
-  | SL [SS t; SL [SZ g; SZ c; SZ m; SZ tr; SZ r]; SL [SZ res; SZ lifo]; SZ t0; SL xs; SL ts; SL pool; SL lats; SZ fuel] =>
+  | SL [SS t; SL [SZ g; SZ c; SZ cb; SZ m; SZ tr; SZ r]; SL [SZ res; SZ lifo]; SZ t0; SL xs; SL ts; SL pool; SL lats; SZ fuel] =>
       if is_tag "run" t then
         match all_some ext_of_sx xs, all_some tspec_of_sx ts, all_some pool_of_sx pool, sx_get_zs lats with
         | Some xs', Some ts', Some pool', Some lats' =>
-            let '(w, tr) := simulate (mk_flags (zb g) (zb c) (zb m) (zb tr) (zb r)) (mk_config res (zb lifo)) t0 xs' ts' pool' lats' (zn fuel) in
+            let '(w, tr) := simulate (mk_flags (zb g) (zb c) (zb cb) (zb m) (zb tr) (zb r)) (mk_config res (zb lifo)) t0 xs' ts' pool' lats' (zn fuel) in
             SL [sx_w "ok"; SL (map sx_event tr);
                 SL (map (fun i => sx_bool (negb (is_none (t_delegate (w_tm w i))))) (seq 0 (w_nt w)))]
         | _, _, _, _ => sx_err "run"
@@ -115,7 +115,7 @@ Definition dispatch (x : sx) : sx :=
         SZ (match timer_validate y (zkind_of z) with TRNeg => 0 | TRCall => 1 | TRNoFn => 2 | TROk => 3 end)
       else sx_err "op"
   | SL [SS t] =>
-      if is_tag "flags" t then SL [sx_bool (f_guard src_flags); sx_bool (f_clear src_flags); sx_bool (f_mono src_flags); sx_bool (f_truth src_flags); sx_bool (f_resolve src_flags)]
+      if is_tag "flags" t then SL [sx_bool (f_guard src_flags); sx_bool (f_clear src_flags); sx_bool (f_clear_base src_flags); sx_bool (f_mono src_flags); sx_bool (f_truth src_flags); sx_bool (f_resolve src_flags)]
       else sx_err "op"
   | _ => sx_err "shape"
   end.
